@@ -3,6 +3,7 @@ import Atto.Driver.Codec
 import Atto.Driver.SendOp
 import Atto.Driver.ProxyOp
 import Atto.Driver.MpOp
+import Atto.Driver.SessOp
 namespace Atto.Driver
 open Atto
 
@@ -41,6 +42,7 @@ def runLine (line : String) : String :=
   | "send" :: args => opSend args
   | "pfor" :: args => opPfor args
   | "mpart" :: args => opMpart args
+  | "sess" :: args => opSess args
   | "penv" :: args => opPenv args
   | _ => "bad-op"
 
